@@ -592,40 +592,14 @@ theorem doMatchMatches_no_panic (re : RegexOracle) (raw : GoString) (value : RV)
     · simp only []
       split <;> simp
 
-/-- `pointerstructure.Get` does not panic on this datum, whatever the path and the configuration.
-    The real library does panic on maps keyed by a pointer type that leads to an array of an
-    uncomparable element type (`map[*[1][]int]V`): `Props/C09Keys.lean` (`getMap_panic_iff`) says
-    exactly when. -/
-def GetNoPanic (d : Any) : Prop := ∀ cfg parts, Go.get cfg parts d ≠ .error .panic
-
-theorem getValue_ne_panic (o : Opts) (d : Any) (path : List GoString) (hp : GetNoPanic d) :
-    getValue o d path ≠ .panic := by
-  unfold getValue
-  split
-  · simp
-  · simp
-  · rename_i p _
-    split
-    · simp
-    · simp
-    · rename_i hg
-      exact absurd hg (hp _ _)
-    · split
-      · simp
-      · split <;> simp
-    · simp
-
 /-- `evaluateMatchExpression` does not panic when the node is parser-shaped. -/
 theorem evaluateMatch_no_panic (re : RegexOracle) (o : Opts) (d : Any) (sel : Selector)
     (op : MatchOp) (raw : Option GoString) (hs : (raw.isSome == op.takesValue) = true)
-    (ho : OptsWf o) (hd : Any.wf d = true) (hp : GetNoPanic d) :
-    evaluateMatch re o d sel op raw ≠ .panic := by
+    (ho : OptsWf o) (hd : Any.wf d = true) : evaluateMatch re o d sel op raw ≠ .panic := by
   unfold evaluateMatch
   split
   · simp
   · simp
-  · rename_i hv
-    exact absurd hv (getValue_ne_panic o d _ hp)
   · simp
   · rename_i v hv
     have hvwf := getValue_wf _ _ _ _ ho hd hv
@@ -748,7 +722,6 @@ theorem evaluateMatch_err (re : RegexOracle) (o : Opts) (d : Any) (sel : Selecto
   unfold evaluateMatch at h
   split at h
   · cases h; rfl
-  · cases h
   · cases h
   · cases h
   · split at h
